@@ -535,7 +535,7 @@ class TrioWorld(WorldBase):
             rec = self.conns.get(ev[1])
             if st is None or rec is None or rec.client_eof or rec.client_reset:
                 return False
-            if st.closed:
+            if st.closed or st.broken:  # (a failed write means the peer is gone: it sends nothing more)
                 return False
             if kind == "cmd" and rec.client is not None and not rec.client.cmd_enabled(ev):
                 return False
